@@ -503,6 +503,8 @@ type Ledger struct {
 	Count    map[*gkvlite.Item]int
 	Harness  map[*gkvlite.Item]int // references owned by the harness (caller)
 	LastAddRef *gkvlite.Item
+	Dead        map[*gkvlite.Item]bool // count went back to 0 through ItemDecRef
+	Resurrected []string
 	Tagged     map[*gkvlite.Item]bool // allocated while reading through a possibly superseded version
 	Negative []string
 	AddRefs  int
@@ -511,19 +513,32 @@ type Ledger struct {
 }
 
 func NewLedger() *Ledger {
-	return &Ledger{Count: map[*gkvlite.Item]int{}, Harness: map[*gkvlite.Item]int{}, Tagged: map[*gkvlite.Item]bool{}}
+	return &Ledger{Count: map[*gkvlite.Item]int{}, Harness: map[*gkvlite.Item]int{}, Tagged: map[*gkvlite.Item]bool{}, Dead: map[*gkvlite.Item]bool{}}
 }
 
 func (l *Ledger) Alloc(i *gkvlite.Item) { l.Count[i] = 1; l.Allocs++ }
 func (l *Ledger) New(i *gkvlite.Item)   { l.Count[i] = 1 }
 func (l *Ledger) AddRef(i *gkvlite.Item) {
 	l.LastAddRef = i
+	if l.Dead[i] && len(l.Resurrected) < 5 {
+		// a reference is taken on an item whose last reference had been
+		// released: an application that recycles buffers at count 0 has
+		// already reused it (premature release, C15)
+		k := ""
+		if i != nil {
+			k = fmt.Sprintf("%q", i.Key)
+		}
+		l.Resurrected = append(l.Resurrected, fmt.Sprintf("item key=%s\n%s", k, trimStack(string(debug.Stack()))))
+	}
 	l.Count[i]++
 	l.AddRefs++
 }
 func (l *Ledger) DecRef(i *gkvlite.Item) {
 	l.Count[i]--
 	l.DecRefs++
+	if l.Count[i] == 0 {
+		l.Dead[i] = true
+	}
 	if l.Count[i] < 0 && len(l.Negative) < 5 {
 		k := ""
 		if i != nil {
